@@ -593,6 +593,11 @@ pub fn oracle_runtime_limits(rng: &mut Rng, n: usize, tier: &str) -> OracleRepor
     oracle_limits("runtime", rng, n, tier)
 }
 
+/// C07 at the operand-size limits: whatever succeeds with LIMITS / DISABLE_OP succeeds identically without
+pub fn oracle_restrict_limits(rng: &mut Rng, n: usize, tier: &str) -> OracleReport {
+    oracle_limits("restrict", rng, n, tier)
+}
+
 fn oracle_limits(kind: &str, rng: &mut Rng, n: usize, tier: &str) -> OracleReport {
     let mut rep = OracleReport::default();
     let lines = progs::generate_op_limits(rng, n, tier);
@@ -600,8 +605,11 @@ fn oracle_limits(kind: &str, rng: &mut Rng, n: usize, tier: &str) -> OracleRepor
         let w: Vec<&str> = l.split(' ').collect();
         let opcode: u8 = match w[2] { "op_div" => 19, "op_divmod" => 20, "op_mod" => 61, "op_modpow" => 60, _ => 18 };
         let flags = u32::from_str_radix(w[3], 16).unwrap();
-        if flags & MALACHITE != 0 {
+        if kind != "restrict" && flags & MALACHITE != 0 {
             continue; // each argument list appears once per flag set; take the ones without the bit
+        }
+        if kind == "restrict" && flags & (LIMITS | DISABLE_OP) == 0 {
+            continue;
         }
         let args = trees::from_hex(w[5]).unwrap();
         let mut items = vec![];
@@ -612,7 +620,9 @@ fn oracle_limits(kind: &str, rng: &mut Rng, n: usize, tier: &str) -> OracleRepor
         }
         let prog = call(opcode, items);
         let env = atom(&[]);
-        let (a, b) = if kind == "runtime" {
+        let (a, b) = if kind == "restrict" {
+            (run_full("chia", flags, 0, &prog, &env, ""), run_full("chia", flags & !(LIMITS | DISABLE_OP), 0, &prog, &env, ""))
+        } else if kind == "runtime" {
             let fl = flags & !(ENABLE_GC | DISABLE_OP);
             let fl = if i % 2 == 0 { fl } else { fl | MALACHITE };
             (run_full("chia", fl, 0, &prog, &env, ""), run_full("runtime", fl, 0, &prog, &env, ""))
@@ -625,7 +635,10 @@ fn oracle_limits(kind: &str, rng: &mut Rng, n: usize, tier: &str) -> OracleRepor
         if i < 2 {
             rep.sample(desc(&prog, &env, flags));
         }
-        let same = if kind == "runtime" {
+        let same = if kind == "restrict" {
+            // the restricted run may fail; when it succeeds the unrestricted one must be identical
+            a.res.is_err() || a == b
+        } else if kind == "runtime" {
             match (&a.res, &b.res) {
                 (Ok(x), Ok(y)) => x == y,
                 (Err((k1, _)), Err((k2, _))) => k1 == k2,
